@@ -346,13 +346,14 @@ Definition add_to_traf (tf : traf_out) (next : N) (s : fsample) : traf_out * N :
       else (mkTraf (tf_id tf) tfdt1 (truns1 ++ [(next1, [s])]), next1 + 1)
   end.
 
-(* `for _, traf = range f.Moof.Trafs { if traf.Tfhd.TrackID == trackID { break } }`: the first match, else
-   the LAST traf is left in the loop variable; nil only when there is no traf at all *)
+(* `for _, tr := range f.Moof.Trafs { if tr.Tfhd.TrackID == trackID { traf = tr; break } }`: the first
+   match; no match -> error (text after commit c6a2326; the pinned text left the LAST traf in the loop
+   variable) *)
 Fixpoint add_in_trafs (tfs : list traf_out) (id next : N) (s : fsample) : option (list traf_out * N) :=
   match tfs with
   | [] => None
   | tf :: r =>
-      if (tf_id tf =? id) || (match r with [] => true | _ => false end)
+      if tf_id tf =? id
       then let '(tf', n') := add_to_traf tf next s in Some (tf' :: r, n')
       else match add_in_trafs r id next s with
            | Some (r', n') => Some (tf :: r', n')
